@@ -783,7 +783,13 @@ def run_project(task: dict) -> dict:
                 bump('candidates_unreplayed', len(cands[i]))
 
         # ---- layer 3: adversarial schedules ------------------------------------------------
-        for si, (policy, jobs, sseed) in enumerate(task['schedules']):
+        sched_list = task['schedules']
+        if time.time() > task.get('soft_deadline', task['deadline']):
+            # the run is behind its time budget (loaded machine / few workers): layers 1-2 stay complete, layer 3 is
+            # thinned to its first two schedules for the remaining projects (counted, never silently)
+            bump('schedules_thinned_for_time', max(0, len(sched_list) - 2))
+            sched_list = sched_list[:2]
+        for si, (policy, jobs, sseed) in enumerate(sched_list):
             if time.time() > task['deadline']:
                 bump('schedules_skipped_time')
                 continue
@@ -910,6 +916,11 @@ DIRECTED: T.List[T.Tuple[T.List[str], T.Dict[str, T.Any]]] = [
     # generator whose program is built by the project AND that is run with process(depends:) / generator(depends:)
     (['built_tool'], {'built_tool.generator': True, 'built_tool.gen_depends': 'process', 'built_tool.override': False}),
     (['built_tool', 'ct_chain'], {'built_tool.generator': True, 'built_tool.gen_depends': 'generator', 'built_tool.override': True}),
+    # depends: naming an INDEXED custom target (ct[0]) of a two-output step
+    (['ct_chain'], {'ct_chain.how': 'depends', 'ct_chain.multi': True, 'ct_chain.depends_index': True, 'unity': False}),
+    # generator.process(preserve_path_from:) with inputs in sub-directories
+    (['generator'], {'generator.preserve': True, 'generator.depends': 'none', 'generator.rely': True,
+                     'generator.libkind': 'static_library'}),
     (['subproject', 'genlist_chain'], {'genlist_chain.ct': True, 'genlist_chain.nested': True}),
     (['generator', 'ct_object', 'ct_header'], {'generator.depends': 'process', 'ct_object.how': 'archive',
                                                'ct_header.variant': 'index'}),
@@ -942,7 +953,8 @@ def build_tasks(chk: common.Check, scratch: str, projects: T.List[dict], nsched:
     tasks = []
     for slot, proj in enumerate(projects):
         tasks.append({'proj': proj, 'slot': slot, 'scratch': scratch, 'seed': chk.seed, 'deadline': deadline,
-                      'ref_jobs': 4, 'hermetic_all': hermetic_all, 'hermetic_sample': 6,
+                      'ref_jobs': 4, 'hermetic_all': hermetic_all, 'hermetic_sample': 4 if chk.tier == 'quick' else 6,
+                      'soft_deadline': (chk.t0 + 0.25 * (deadline - chk.t0)) if chk.tier == 'quick' else deadline,
                       'schedules': make_schedules(chk.seed, slot, nsched)})
     return tasks
 
@@ -1046,8 +1058,8 @@ def main() -> int:
     if st_problems:
         chk.inconclusive.append('strace parser self-test failed: ' + '; '.join(st_problems)[:400])
     quick = chk.tier == 'quick'
-    nproj = 34 if quick else 300
-    nsched = 6 if quick else 20
+    nproj = len(DIRECTED) + 1 + 8 if quick else 300
+    nsched = 5 if quick else 20
     budget = float(os.environ.get('VERIF_C05_BUDGET', '0')) or (150.0 if quick else 1080.0)
     deadline = chk.t0 + budget
     projects: T.List[dict] = []
@@ -1067,7 +1079,8 @@ def main() -> int:
     chk.require('monitor:projects_decided', max(1, int(0.8 * nproj)))
     chk.require('monitor:race_reads_checked', 20 * max(1, built) // 2)
     chk.require('monitor:hermetic_replays', max(1, built))
-    chk.require('monitor:schedules_run', max(1, built * nsched * 8 // 10))
+    thinned = chk.counters.get('monitor:schedules_thinned_for_time', 0)
+    chk.require('monitor:schedules_run', max(1, (built * nsched - thinned) * 8 // 10))
     chk.require('cfg:single_compile', built)
     chk.require('cfg:custom_target', 1)
     chk.require('cfg:link', built)
